@@ -31,7 +31,11 @@ func (api *API) mapEncode(ctx context.Context, value reflect.Value, ts TypeSetti
 		}
 	}
 
-	if serializable, ok := valueI.(SerializableJSON); ok {
+	serializable, ok := valueI.(SerializableJSON)
+	if !ok {
+		serializable, ok = addrSerializable[SerializableJSON, DeserializableJSON](value, valueType)
+	}
+	if ok {
 		// the object is held in an interface: its validator is registered for its own type, and MapDecode
 		// validates the object it builds for the interface - so MapEncode has to validate it as well
 		if opts.validation && valueType.Kind() == reflect.Interface {
